@@ -74,6 +74,15 @@ def cases(draw, tier):
             ses["events"] = events
             first = False
         cfg["simulation"]["sessions"].append(ses)
+    if draw(st.integers(0, 3)) == 0:
+        # a session of zero steps somewhere (a break): it begins and ends at the same clock reading and moves nothing
+        at = draw(st.integers(0, len(cfg["simulation"]["sessions"])))
+        brk = {"sessionName": 0, "iterationSteps": 0, "withOrderPlacement": True, "withOrderExecution": True, "withPrint": False, "maxNormalOrders": 1}
+        if at == 0:
+            brk["events"] = cfg["simulation"]["sessions"][0].pop("events")
+        cfg["simulation"]["sessions"].insert(at, brk)
+        for i_, s_ in enumerate(cfg["simulation"]["sessions"]):
+            s_["sessionName"] = i_
     return {"config": cfg, "seed": draw(st.integers(0, 2**31 - 1))}
 
 
@@ -105,6 +114,18 @@ def check_case(case):
         if ses.session_start_time != start or (mine and mine[0]["t"] != start):
             raise Violation("C06.session_start", f"session {ses.session_id}: start time {ses.session_start_time}, first step {mine[0]['t'] if mine else None}, expected {start}")
         start += sc["iterationSteps"]
+    # the clock as seen at the session boundaries (begin / end records, session hooks): the session's first time, then the next one's
+    starts, acc = {}, 0
+    for sc, ses in zip(A.sess_cfg, sim.sessions):
+        starts[ses.session_id] = (acc, acc + sc["iterationSteps"])
+        acc += sc["iterationSteps"]
+    for i, (k, kw) in enumerate(A.items):
+        if k == "log.write" and type(kw["log"]).__name__ in ("SessionBeginLog", "SessionEndLog"):
+            sid = kw["log"].session.session_id
+            want = starts[sid][0 if type(kw["log"]).__name__ == "SessionBeginLog" else 1]
+            if set(kw["times"]) != {want}:
+                raise Violation("C06.session_start", f"{type(kw['log']).__name__} of session {sid}: markets read {kw['times']}, the session "
+                                                     f"{'begins' if want == starts[sid][0] else 'ends'} at {want}")
     final = sim.markets[0].get_time()
     if final != A.total_steps:
         raise Violation("C06.final_clock", f"clock ends at {final}, expected {A.total_steps}")
